@@ -6,7 +6,7 @@ import time
 from . import common as c
 
 SUPPORT = ["Str/TablesOk.v", "Str/FinderProofs.v", "Str/QuoteProofs.v", "Str/GoQuoteProofs.v", "Str/RoundTrip.v",
-           "Str/HtmlProofs.v", "Str/Utf8Proofs.v", "Str/UnquoteProofs.v", "Str/AstQuoteProofs.v"]
+           "Str/HtmlProofs.v", "Str/Utf8Proofs.v", "Str/UnquoteProofs.v", "Str/DoubleProofs.v", "Str/Swar.v"]
 
 CLAIM = {
     "gens": ["Tables"],
@@ -15,13 +15,13 @@ CLAIM = {
             "unquote.c, html_escape.c, utf8.h and of the Go loops alg.Quote / alg.HtmlEscape / unquote.intoBytesUnsafe / utf8.CorrectWith / "
             "ast.quoteString, with the escape tables regenerated from native/parsing.h and internal/rt on every run: quote = table-driven escape "
             "of every byte for every destination-capacity schedule and every block width; unquote(quote s) = s in single and double mode; "
-            "unquote = reference unquoting with encoding/json's escape semantics; html_escape = the json.HTMLEscape reference with the prefix kept; "
-            "UTF-8 validation = Unicode table 3-7 well-formedness; CorrectWith = byte-wise replacement. The models are tied to the running code "
+            "unquote = reference unquoting with encoding/json's escape semantics; html_escape and alg.HtmlEscape = the json.HTMLEscape reference with the prefix kept for every destination; "
+            "UTF-8 validation = Unicode table 3-7 well-formedness; CorrectWith = byte-wise replacement; the SWAR hex test = four hex digits; double-mode unquote = unquoting twice on "
+            "canonical input and refuted (with witnesses replayed on sonic.Unmarshal of `,string` fields) otherwise. The models are tied to the running code "
             "(both SIMD blobs, public Go API, Marshal/Unmarshal in four back-end processes) by a differential run whose expected lines come from the real "
             "code, and the real code is compared to encoding/json, unicode/utf8 and plain Go references on every generated input.",
     "note": "Trusted: Coq kernel + vm_compute, tools/tx (tables), extraction, the Go harness, encoding/json + unicode/utf8 as oracles. The native blobs are "
-            "modelled from the C source (tie by differential run only); the SWAR hex test unhex16_is and the AVX2 lookup pre-check of validate_utf8_fast "
-            "are modelled by their meaning.",
+            "modelled from the C source (tie by differential run only); the AVX2 lookup pre-check of validate_utf8_fast is modelled by its meaning.",
     "technique": "Coq proof over executable models (induction on byte lists, width-parametric blocked finders) + extraction-based differential tie + oracle search",
 }
 
@@ -35,15 +35,11 @@ def classify_known(f):
         if f.get("run") == "optdec" and d.get("class") == "illformed-utf8-replaced":
             return "KF-optdec-stringtag-illformed-utf8"
         return None
-    if f.get("kind") != "HTMLEscape-panic":
+    if f.get("kind") == "through-double-vs-std":
+        if f.get("run") != "optdec" and d.get("class") in ("outer-noncanonical-escape", "inner-surrogate-escape"):
+            return "KF-double-unquote-fusion"
         return None
-    try:
-        pl, cap = int(d["prefix_len"]), int(d["cap"])
-        sl = 0 if d["src"] == "-" else len(d["src"]) // 2
-    except Exception:
-        return None
-    if pl > sl * 3 // 2 + 64 and cap - pl < sl + 64:
-        return "KF-htmlescape-long-prefix-panic"
+    # KF-htmlescape-long-prefix-panic is fixed (e1e5e27): an HTMLEscape-panic is a violation again
     return None
 
 
@@ -72,8 +68,11 @@ def run(ctx):
                                      "encoding/json (Unmarshal, HTMLEscape), unicode/utf8 (Valid, DecodeRune) and the plain Go references of harness/cmd/c20/oracle.go as oracles",
                                      "the native blobs internal/native/{avx2,sse} are modelled from native/*.c / parsing.h / utf8.h by hand; only the differential run speaks for the blobs"]
     ctx.assumptions = [
-        "the SWAR test unhex16_is (hasless/hasmore/hasbetween) is modelled as 'all four bytes are hex digits' and the AVX2 lookup pre-check of validate_utf8_fast as "
-        "'returns 0 only where the scalar routine does'; both are exercised by the differential run (all 16^4 boundary-byte quadruples after \\u; AVX2 vs SSE vs unicode/utf8), not proved",
+        "the AVX2 lookup pre-check of validate_utf8_fast (simdjson algorithm) is modelled as 'returns 0 only where the scalar routine does'; exercised by the "
+        "differential run (AVX2 vs SSE vs unicode/utf8 on every input), not proved. The SWAR hex test unhex16_is is modelled by its meaning in Str/Unquote.v and "
+        "PROVED equal to the literal word-level code (32-bit and 64-bit intermediates) on bytes: C20_unhex16_is_swar, C20_unhex16_is_swar64",
+        "double mode (F_DBLUNQ): the reference semantics (unquote twice, as encoding/json does for `,string`) is proved only on canonical double escapes "
+        "(C20_unquote_double_canonical_partial); in general it is refuted (C20_unquote_double_refuted, KF-double-unquote-fusion)",
         "runtime.growslice is a section variable `grow` with the hypothesis requested <= grow old requested; append's growth is any capacity >= length",
         "memcpy_p8 copies at most 7 bytes: exact for the actual tables (C20_tables_ok proves n = length s <= 7 for every entry)",
         "destination bytes past the reported length and reads of the input are not modelled (C05/C06); the harness only checks canaries past the capacity",
